@@ -4,6 +4,7 @@ package route
 
 import (
 	"context"
+	"time"
 
 	internalStats "github.com/cloudwego/hertz/internal/stats"
 	zz "github.com/cloudwego/hertz/internal/zzverif"
@@ -17,6 +18,7 @@ func zzNewEngine() *Engine {
 		DisablePrintRoute:      true,
 		HandleMethodNotAllowed: true,
 		BasePath:               "/",
+		ExitWaitTimeout:        5 * time.Second,
 	}
 	e := &Engine{
 		trees:       make(MethodTrees, 0, 9),
